@@ -29,7 +29,7 @@ CLAIM = {
             "(R3.7) the setter keeps the two point slots aligned with the numbers: previous <- current exactly on "
             "num == next+1 (every path), never on a retry (num == next), previous <- None on a jump, current <- "
             "Some(new point) whenever the number grows, next <- num. "
-            "(R3.8/R3.9) restart clause: every acknowledged change of the channel's enforcement state is persisted before the success return and every persisted field is restored into the same slot, the restored EnforcementState installed unmodified (same obligations as C11 R11.1 for the channel class and C11 R11.2). Does not decide the hash arithmetic of the 49-slot store (derive_secret/place_secret).",
+            "(R3.8/R3.9) restart clause: every acknowledged change of the channel's enforcement state is persisted before the success return and every persisted field is restored into the same slot, the restored EnforcementState installed unmodified (same obligations as C11 R11.1 for the channel class and C11 R11.2). (R3.10) refusals are real refusals under every filter configuration: PolicyFilter::filter lets the first matching rule decide with that rule's own action and defaults to Error, and a policy error becomes Ok only when the filter says Warn (same obligations as C05 R5.4). (R3.11) the on-disk store commits every write with immediate durability (C11 R11.6): an acknowledged signature's counter cannot be rolled back by a crash. Does not decide the hash arithmetic of the 49-slot store (derive_secret/place_secret).",
     "note": "non-permissive policy; rustc MIR; one live object per typed path; secp256k1 from_secret_key by name",
     "technique": "static analysis: MIR who-may-write/call + must-pass-through + guard-scenario entailment + provenance",
 }
@@ -53,6 +53,8 @@ def run(ctx):
     r36(ctx)
     r37(ctx)
     r_restart(ctx)
+    r_filter(ctx)
+    r_durable(ctx)
 
 
 def r31(ctx):
@@ -518,3 +520,17 @@ def r_restart(ctx):
     v = _report.renamed(ctx, {"R11.1": "R3.8", "R11.2": "R3.9"})
     _c11.r111(v, classes={"channel"})
     _c11.r112(v)
+
+
+def r_filter(ctx):
+    """every guard of this property refuses through policy_err!; which tags are demoted to warnings is decided by
+    PolicyFilter::filter.  Same obligations as C05 R5.4 (first matching rule decides with its own action, default Error,
+    Err unless Warn), evaluated here because an operator's `error` pin on this property's tags depends on them."""
+    from rules import C05 as _c05
+    _c05.r54(ctx, rid="R3.10")
+
+
+def r_durable(ctx):
+    """restart clause, storage side: what Channel::persist wrote before the signature was released is on disk (C11 R11.6)"""
+    from rules import C11 as _c11
+    _c11.r116(ctx, rid="R3.11")
